@@ -130,8 +130,71 @@ pub fn run(ctx: &mut Ctx) {
     random_soups(ctx, &ps);
     mutations(ctx, &ps);
     rejection(ctx, &ps);
+    from_files(ctx, &ps);
     ctx.extra.insert("token_alphabet".into(), json!(TOKENS.len()));
     ctx.extra.insert("element_alphabet".into(), json!(ELEMENTS.len()));
+}
+
+/// `Parser::parse_file`: the same verdict as `parse` on the file's text; a missing file and a file
+/// that is not UTF-8 are errors, never panics
+fn from_files(ctx: &mut Ctx, ps: &Parsers) {
+    let dir = match &ctx.out {
+        Some(o) => std::path::Path::new(o).parent().map(|p| p.to_path_buf()).unwrap_or_else(std::env::temp_dir),
+        None => std::env::temp_dir(),
+    };
+    let path = dir.join(format!("c01-parse-file-{}-{}.liquid", std::process::id(), ctx.shard));
+    let n = ctx.scale(300u64, 3_000u64);
+    let rng = ctx.rng("c01-files");
+    for i in 0..n {
+        if !ctx.mine_idx(i) {
+            continue;
+        }
+        let mut r = rng.fork(i);
+        let k = 1 + r.below(8);
+        let text: String = (0..k).map(|_| r.choose(ELEMENTS)).collect::<Vec<_>>().join(r.choose(&["", " ", "\n"]));
+        // every third case: bytes that are not UTF-8
+        let bytes: Vec<u8> = if i % 3 == 2 {
+            let mut b = text.clone().into_bytes();
+            let pos = r.below(b.len() + 1);
+            b.insert(pos, r.choose(&[0xffu8, 0xc3, 0x80, 0xed]));
+            if String::from_utf8(b.clone()).is_ok() {
+                b.push(0xff);
+            }
+            b
+        } else {
+            text.clone().into_bytes()
+        };
+        if std::fs::write(&path, &bytes).is_err() {
+            ctx.inconclusive.push("cannot write scratch file for parse_file".into());
+            return;
+        }
+        let valid = String::from_utf8(bytes.clone()).ok();
+        let direct = valid.as_ref().map(|t| guard(|| ps.stdlib.parse(t).map(|_| ()).map_err(|e| e.to_string())));
+        let via_file = guard(|| ps.stdlib.parse_file(&path).map(|_| ()).map_err(|e| e.to_string()));
+        ctx.record(hash_str(&format!("file:{:?}", bytes)), true);
+        ctx.count("family:parse_file");
+        let replay = || json!({"kind": "parse", "config": "stdlib", "text": String::from_utf8_lossy(&bytes), "via": "parse_file"});
+        match (&via_file, &direct) {
+            (Err(p), _) => ctx.violation(&p.key(), &format!("Parser::parse_file panicked at {}: {}", p.site(), p.msg), replay),
+            (Ok(Ok(())), None) => ctx.violation("parse_file:accepts-non-utf8", "parse_file accepted a file that is not UTF-8", replay),
+            (Ok(Err(_)), None) => ctx.count("parse_file:non-utf8-rejected"),
+            (Ok(f), Some(Ok(d))) => {
+                if f.is_ok() != d.is_ok() {
+                    ctx.violation("parse_file:differs-from-parse", &format!("parse_file says {f:?}, parse of the same text says {d:?}"), replay);
+                } else {
+                    ctx.count("parse_file:same-verdict-as-parse");
+                }
+            }
+            (Ok(_), Some(Err(_))) => {}
+        }
+    }
+    let _ = std::fs::remove_file(&path);
+    let missing = dir.join("c01-no-such-file.liquid");
+    match guard(|| ps.stdlib.parse_file(&missing).is_ok()) {
+        Ok(false) => ctx.count("parse_file:missing-file-rejected"),
+        Ok(true) => ctx.violation("parse_file:accepts-missing-file", "parse_file of a path that does not exist succeeded", || json!({"kind": "parse", "config": "stdlib", "text": ""})),
+        Err(p) => ctx.violation(&p.key(), &format!("parse_file of a missing file panicked: {}", p.msg), || json!({"kind": "parse", "config": "stdlib", "text": ""})),
+    }
 }
 
 fn token_enumeration(ctx: &mut Ctx, ps: &Parsers) {
